@@ -55,7 +55,7 @@ static void *(*r_mmap64)(void *, size_t, int, int, int, off_t);
 #define MAXOPS 4096
 #define MAXHELD 16
 
-enum { OP_READ, OP_GETATTR, OP_SETATTR, OP_PAGEMAP, OP_CLONE };
+enum { OP_READ, OP_GETATTR, OP_SETATTR, OP_PAGEMAP, OP_CLONE, OP_STR };
 struct op { int kind; unsigned as; uint64_t addr, arg; uint64_t expect; int exp_kind; char name[64]; };
 /* exp_kind: 0 = hash of the page, 1 = nodata, 2 = anything */
 
@@ -68,7 +68,7 @@ struct worker {
 	struct op *ops; int nops;
 	int fail_inflate, fail_pread, fail_mmap;    /* n-th call fails (1-based), 0 = never */
 	int n_inflate, n_pread, n_mmap;
-	int in_api;
+	int in_api, in_str;
 	struct held held[MAXHELD]; int nheld;
 	/* cooperative scheduler */
 	int finished;
@@ -354,6 +354,16 @@ void *__wrap_malloc(size_t n)
 	if (n == PERCTX_SIZE && fail_perctx_malloc && me && me->in_api) return NULL;
 	return __real_malloc(n);
 }
+/* realloc() inside kdump_read_string is a scheduling point: the page the string is copied from must still be
+ * pinned while another thread runs there */
+void *__real_realloc(void *, size_t);
+static void yield_at(const char *kind);
+static int tracked(void);
+void *__wrap_realloc(void *p, size_t n)
+{
+	if (me && me->in_str && tracked()) yield_at("realloc");
+	return __real_realloc(p, n);
+}
 int lib_per_ctx_alloc(struct kdump_shared *, size_t) __asm__("_kdumpfile_priv_per_ctx_alloc");
 
 /* ------------------------------------------------------------------ interposed fill primitives */
@@ -599,6 +609,24 @@ static void run_op(struct worker *w, int i, int round)
 		else { ++w->n_err; if (!w->firstbad[0] && !w->fail_inflate && !w->fail_pread && !w->fail_mmap) snprintf(w->firstbad, sizeof w->firstbad, "thread %d op %d round %d: read as=%u addr=%" PRIu64 " failed with %s: %s", w->id, i, round, o->as, o->addr, stname(st), kdump_get_err(w->ctx)); }
 		if (MODE_CTL) out("R %d %d read %u %" PRIu64 " -> %s %s held=%s\n", w->id, i, o->as, o->addr, stname(st), verdict, hs);
 		free(buf);
+	} else if (o->kind == OP_STR) {
+		char *str = NULL;
+		const char *verdict = "-";
+		api_enter();
+		w->in_str = 1;
+		st = kdump_read_string(w->ctx, o->as, o->addr, &str);
+		w->in_str = 0;
+		held_str(w, hs);
+		api_leave("kdump_read_string");
+		if (st == KDUMP_OK) {
+			int good = o->exp_kind == 2 || (o->exp_kind == 0 && fnv1((unsigned char *)str, strlen(str)) == o->expect);
+			verdict = good ? "good" : "bad";
+			if (good) ++w->n_ok; else { ++w->n_bad; if (!w->firstbad[0]) snprintf(w->firstbad, sizeof w->firstbad, "thread %d op %d round %d: string at as=%u addr=%" PRIu64 " has wrong bytes (length %zu, hash %016" PRIx64 ", expected %016" PRIx64 ")", w->id, i, round, o->as, o->addr, strlen(str), fnv1((unsigned char *)str, strlen(str)), o->expect); }
+			free(str);
+		} else if (st == KDUMP_ERR_BUSY) ++w->n_busy;
+		else if (st == KDUMP_ERR_NODATA && o->exp_kind == 1) ++w->n_nodata;
+		else ++w->n_err;
+		if (MODE_CTL) out("R %d %d read %u %" PRIu64 " -> %s %s held=%s\n", w->id, i, o->as, o->addr, stname(st), verdict, hs);
 	} else if (o->kind == OP_GETATTR) {
 		kdump_num_t num = 0;
 		api_enter();
@@ -701,6 +729,11 @@ int main(int argc, char **argv)
 		else if (sscanf(line, "op %d read %u %" SCNu64 " %63s", &t, &u, &x, a) == 4 && t < NT && W[t].nops < MAXOPS) {
 			struct op *o = &W[t].ops[W[t].nops++];
 			o->kind = OP_READ; o->as = u; o->addr = x;
+			if (!strcmp(a, "nodata")) o->exp_kind = 1; else if (!strcmp(a, "any")) o->exp_kind = 2;
+			else { o->exp_kind = 0; o->expect = strtoull(a, NULL, 16); }
+		} else if (sscanf(line, "op %d str %u %" SCNu64 " %63s", &t, &u, &x, a) == 4 && t < NT && W[t].nops < MAXOPS) {
+			struct op *o = &W[t].ops[W[t].nops++];
+			o->kind = OP_STR; o->as = u; o->addr = x;
 			if (!strcmp(a, "nodata")) o->exp_kind = 1; else if (!strcmp(a, "any")) o->exp_kind = 2;
 			else { o->exp_kind = 0; o->expect = strtoull(a, NULL, 16); }
 		} else if (sscanf(line, "op %d getattr %63s", &t, a) == 2 && t < NT && W[t].nops < MAXOPS) {
